@@ -51,6 +51,13 @@ type c09Job struct {
 	HardCap    int64  `json:"hard_cap"`              // RSS at which the parent kills the child; also sizes RLIMIT_AS
 	CancelTick int    `json:"cancel_tick,omitempty"` // k > 0: the k-th vtick() calls State.Cancel; -1: context cancelled before the evaluation starts
 	Via        string `json:"via"`                   // "string": repl.EvalStringWithOption; "one": repl.EvalOne on an own State + follow-up input
+	GenCtx     string `json:"gen_ctx,omitempty"`     // where the generated nesting sits: "" top level | "fn" | "for" | "quote" | "macro" | "macroarg" | "rec" (see c09GenProgram)
+	Fn         string `json:"fn,omitempty"`          // library function / program shape of the libgrow and output families (part of the signature)
+	AutoLoad   bool   `json:"autoload,omitempty"`    // Options.AutoLoad (entry point "string" only): the saved state in the child's working directory is loaded first
+	StateLines int    `json:"state_lines,omitempty"` // lines of the saved state file written before the evaluation (0 = no file)
+	StateKind  string `json:"state_kind,omitempty"`  // what the saved bindings are: "" ints | "str" | "arr" | "fn" | "arr1k" (arrays of 1000 elements) | "big" (one array literal of StateLines elements)
+	PreSleepMs int    `json:"pre_sleep_ms,omitempty"` // Options.PreInput hook that takes this long
+	AutoSave   bool   `json:"autosave,omitempty"`    // Options.AutoSave
 	ResultPath string `json:"result_path"`
 }
 
@@ -63,7 +70,8 @@ type c09Res struct {
 	Ticks         int      `json:"ticks"`
 	TicksAfter    int      `json:"ticks_after_cancel"`
 	Cancelled     bool     `json:"cancelled_by_tick"`
-	EvalMs        float64  `json:"eval_ms"`         // wall time of the evaluation call
+	EvalMs        float64  `json:"eval_ms"`         // wall time of the evaluation call (without LoadMs)
+	LoadMs        float64  `json:"load_ms,omitempty"` // AutoLoad + PreInput, before the deadline is armed
 	AfterCancelMs float64  `json:"after_cancel_ms"` // from State.Cancel to return (tick-cancel cases)
 	HWMKb         int64    `json:"hwm_kb"`          // VmHWM of the child at the end
 	BaseKb        int64    `json:"base_kb"`         // VmHWM just before the evaluation
@@ -89,79 +97,187 @@ func procStatusKb(key string) int64 {
 	return -1
 }
 
-func c09GenSource(kind string, n int) string {
+// c09GenParts: a deeply nested (or long chained) expression of the given kind around `leaf`, and the statements it needs
+// in front of it. leaf "" = the kind's own constant.
+func c09GenParts(kind string, n int, leaf string) (prelude, expr string) {
 	var sb strings.Builder
+	lf := func(def string) string {
+		if leaf != "" {
+			return leaf
+		}
+		return def
+	}
 	switch kind {
 	case "paren": // ((((1))))  grouping only: parser recursion, no evaluation depth
 		sb.Grow(2*n + 2)
 		sb.WriteString(strings.Repeat("(", n))
-		sb.WriteString("1")
+		sb.WriteString(lf("1"))
 		sb.WriteString(strings.Repeat(")", n))
 	case "bracket": // [[[[1]]]]  parser recursion and evaluation depth
 		sb.Grow(2*n + 2)
 		sb.WriteString(strings.Repeat("[", n))
-		sb.WriteString("1")
+		sb.WriteString(lf("1"))
 		sb.WriteString(strings.Repeat("]", n))
 	case "neg": // - - - - 1   prefix chain
 		sb.Grow(2*n + 2)
 		sb.WriteString(strings.Repeat("- ", n))
-		sb.WriteString("1")
+		sb.WriteString(lf("1"))
+	case "negparen": // -(-(-(1)))
+		sb.Grow(3*n + 2)
+		sb.WriteString(strings.Repeat("-(", n))
+		sb.WriteString(lf("1"))
+		sb.WriteString(strings.Repeat(")", n))
+	case "not": // !!!!true
+		sb.Grow(n + 8)
+		sb.WriteString(strings.Repeat("!", n))
+		if leaf != "" {
+			sb.WriteString("(" + leaf + "==0)")
+		} else {
+			sb.WriteString("true")
+		}
 	case "block": // if true {if true {... 1 ...}}
 		sb.Grow(11*n + 2)
 		sb.WriteString(strings.Repeat("if true {", n))
-		sb.WriteString("1")
+		sb.WriteString(lf("1"))
 		sb.WriteString(strings.Repeat("}", n))
 	case "call": // f(f(f(...1...)))
+		prelude = "f=func(x){x};"
 		sb.Grow(3*n + 40)
-		sb.WriteString("f=func(x){x};")
 		sb.WriteString(strings.Repeat("f(", n))
-		sb.WriteString("1")
+		sb.WriteString(lf("1"))
 		sb.WriteString(strings.Repeat(")", n))
 	case "funcblock": // ()=>{()=>{ ... 1 ... }}
 		sb.Grow(6*n + 2)
 		sb.WriteString(strings.Repeat("()=>{", n))
-		sb.WriteString("1")
+		sb.WriteString(lf("1"))
 		sb.WriteString(strings.Repeat("}", n))
 	case "forblock": // for 1 {[for 1 {[ ... 1 ... ]}]}
 		sb.Grow(10*n + 2)
 		sb.WriteString(strings.Repeat("for 1 {[", n))
-		sb.WriteString("1")
+		sb.WriteString(lf("1"))
 		sb.WriteString(strings.Repeat("]}", n))
 	case "elseif": // if a {1} else if a {1} else if ...   (a chain, not a nesting in the source)
+		prelude = "a=false;"
 		sb.Grow(16*n + 40)
-		sb.WriteString("a=false; if a {1}")
+		sb.WriteString(" if a {1}")
 		sb.WriteString(strings.Repeat(" else if a {1}", n))
+		if leaf != "" {
+			sb.WriteString(" else {" + leaf + "}")
+		}
 	case "sum": // 1+1+1+...  iterative in the parser, a left-deep tree for the printer and the evaluator
 		sb.Grow(2*n + 2)
-		sb.WriteString("1")
+		sb.WriteString(lf("1"))
 		sb.WriteString(strings.Repeat("+1", n))
+	case "sumright": // 1+(1+(1+(...)))  a right-deep tree
+		sb.Grow(4*n + 2)
+		sb.WriteString(strings.Repeat("1+(", n))
+		sb.WriteString(lf("1"))
+		sb.WriteString(strings.Repeat(")", n))
 	case "dot": // m.a.a.a...
+		prelude = "m={};"
 		sb.Grow(2*n + 8)
-		sb.WriteString("m={};m")
+		sb.WriteString("m")
 		sb.WriteString(strings.Repeat(".a", n))
 	case "callchain": // f()()()...
+		prelude = "f=func(){f};"
 		sb.Grow(2*n + 20)
-		sb.WriteString("f=func(){f};f")
+		sb.WriteString("f")
 		sb.WriteString(strings.Repeat("()", n))
 	case "index": // a[a[a[...0...]]]
+		prelude = "a=[0];"
 		sb.Grow(3*n + 10)
-		sb.WriteString("a=[0];")
 		sb.WriteString(strings.Repeat("a[", n))
-		sb.WriteString("0")
+		if leaf != "" {
+			sb.WriteString("0*" + leaf)
+		} else {
+			sb.WriteString("0")
+		}
 		sb.WriteString(strings.Repeat("]", n))
 	case "lambda": // x=>x=>x=>...1
 		sb.Grow(3*n + 4)
 		sb.WriteString("f=")
 		sb.WriteString(strings.Repeat("x=>", n))
-		sb.WriteString("1")
+		sb.WriteString(lf("1"))
 	case "strcat": // "a"+"a"+...
 		sb.Grow(4*n + 4)
 		sb.WriteString("\"a\"")
 		sb.WriteString(strings.Repeat("+\"a\"", n))
+	case "maplit": // {"k":{"k":{...1...}}}
+		sb.Grow(6*n + 2)
+		sb.WriteString(strings.Repeat("{\"k\":", n))
+		sb.WriteString(lf("1"))
+		sb.WriteString(strings.Repeat("}", n))
 	default:
-		return "error(\"unknown gen\")"
+		return "", "error(\"unknown gen\")"
 	}
-	return sb.String()
+	return prelude, sb.String()
+}
+
+func c09GenSource(kind string, n int) string {
+	pre, expr := c09GenParts(kind, n, "")
+	return pre + expr
+}
+
+// c09GenProgram puts the nesting where the evaluator treats it differently:
+//
+//	""         at top level
+//	"fn"       in the body of a function called with an integer argument (the body is rewritten for the register)
+//	"for"      in the body of a counted loop with a variable, inside a function (rewritten for the loop register)
+//	"quote"    as the argument of quote() (rewritten looking for unquote)
+//	"macro"    in a program that defines a macro (the whole program goes through the macro expansion)
+//	"macroarg" as the argument of a macro call
+//	"rec"      around the recursive call of an unbounded recursion (every call adds the nesting to the Go stack)
+func c09GenProgram(kind string, n int, ctx string) string {
+	switch ctx {
+	case "fn":
+		pre, expr := c09GenParts(kind, n, "n")
+		return pre + "func w(n){" + expr + "}; w(0)"
+	case "for":
+		pre, expr := c09GenParts(kind, n, "i")
+		return pre + "func w(){for i = 2 {" + expr + "}}; w()"
+	case "quote":
+		pre, expr := c09GenParts(kind, n, "")
+		return pre + "quote(" + expr + ")"
+	case "macro":
+		pre, expr := c09GenParts(kind, n, "")
+		return "mm = macro(x) {quote(unquote(x))};" + pre + expr
+	case "macroarg":
+		pre, expr := c09GenParts(kind, n, "")
+		return "mm = macro(x) {quote(unquote(x))};" + pre + "mm(" + expr + ")"
+	case "rec":
+		pre, expr := c09GenParts(kind, n, "w(n+1)")
+		return pre + "func w(n){vtick(); " + expr + "}; w(0)"
+	}
+	return c09GenSource(kind, n)
+}
+
+// c09WriteState writes what an earlier auto-saving session would have left: n bindings, one per line.
+func c09WriteState(path, kind string, n int) error {
+	var sb strings.Builder
+	switch kind {
+	case "big": // one binding, an array literal of n elements
+		sb.Grow(2*n + 8)
+		sb.WriteString("big=[")
+		sb.WriteString(strings.Repeat("0,", n-1))
+		sb.WriteString("0]\n")
+	default:
+		sb.Grow(24 * n)
+		for i := 0; i < n; i++ {
+			switch kind {
+			case "str":
+				fmt.Fprintf(&sb, "v%d=\"value %d\"\n", i, i)
+			case "arr":
+				fmt.Fprintf(&sb, "v%d=[%d,%d.5,\"x\"]\n", i, i, i)
+			case "fn":
+				fmt.Fprintf(&sb, "v%d=func(x){x+%d}\n", i, i)
+			case "arr1k": // 1000 elements each: 16 kB of objects out of 2 kB of text
+				fmt.Fprintf(&sb, "v%d=[%s0]\n", i, strings.Repeat("0,", 999))
+			default:
+				fmt.Fprintf(&sb, "v%d=%d\n", i, i)
+			}
+		}
+	}
+	return os.WriteFile(path, []byte(sb.String()), 0o600)
 }
 
 func c09Trunc(s string, n int) string {
@@ -258,7 +374,13 @@ func c09Worker(args []string) {
 		}})
 	src := job.Src
 	if job.Gen != "" {
-		src = c09GenSource(job.Gen, job.GenN)
+		src = c09GenProgram(job.Gen, job.GenN, job.GenCtx)
+	}
+	if job.StateLines > 0 {
+		if err := c09WriteState(repl.AutoSaveFile, job.StateKind, job.StateLines); err != nil {
+			fmt.Fprintln(os.Stderr, "c09 worker: state file:", err)
+			os.Exit(3)
+		}
 	}
 	res.SrcLen = len(src)
 	// Address-space cap on ourselves (so a bypassed guard kills only this child): what is mapped
@@ -272,6 +394,18 @@ func c09Worker(args []string) {
 	opts := repl.EvalStringOptions()
 	opts.MaxDepth = job.MaxDepth
 	opts.MaxDuration = time.Duration(job.DeadlineMs) * time.Millisecond
+	opts.AutoLoad = job.AutoLoad
+	opts.AutoSave = job.AutoSave
+	var tPre time.Time
+	if job.PreSleepMs > 0 || job.AutoLoad {
+		// PreInput runs after the saved state is loaded and before the deadline is armed: what comes before it is not evaluation
+		opts.PreInput = func(*eval.State) {
+			if job.PreSleepMs > 0 {
+				time.Sleep(time.Duration(job.PreSleepMs) * time.Millisecond)
+			}
+			tPre = time.Now()
+		}
+	}
 	ctx := context.Background()
 	if job.CancelTick < 0 {
 		c2, cancel := context.WithCancel(ctx)
@@ -317,6 +451,10 @@ func c09Worker(args []string) {
 		}
 	} else {
 		out, errs, _ = repl.EvalStringWithOption(ctx, opts, src)
+		if !tPre.IsZero() {
+			res.LoadMs = float64(tPre.Sub(t0).Microseconds()) / 1000
+			t0 = tPre
+		}
 		res.EvalMs = float64(time.Since(t0).Microseconds()) / 1000
 	}
 	if res.Cancelled {
@@ -609,13 +747,16 @@ const c09Consts = ` MaxDepths = {2, 3}
  Phys = 12
  NestN = 7
  NestM = 6
+ NestR = 2
+ LoadSlow = 2
  NMax = 4
  TMax = 3
  SMax = 16
  K = 6
 `
 
-var c09AllSkel = []string{"loop", "loopempty", "recurse", "mutual", "closures", "sconcat", "aconcat", "srepeat", "arepeat", "arepeatwrap", "range", "nest", "nestmid", "sleep"}
+var c09AllSkel = []string{"loop", "loopempty", "recurse", "mutual", "closures", "sconcat", "aconcat", "srepeat", "arepeat", "arepeatwrap", "range", "nest", "nestmid", "sleep",
+	"libgrow", "output", "recnest", "rewrite", "autoload"}
 
 // deviations of the real code from the design (named constants of Guards.tla) and the finding each one explains
 var c09AsBuilt = []string{"StringConcatUnguarded", "RepeatSizeOverflow", "NestingUnguarded", "StackUnbudgeted"}
@@ -653,12 +794,13 @@ func c09Cfg(skel, dev []string, emit bool, invs []string, live bool) string {
 	return s
 }
 
-var c09Invs = []string{"TypeOK", "DepthBound", "NoDeath", "MemBound", "HostLoopCovered", "PromptStop", "BoundaryClean", "RefuseHuge"}
+var c09Invs = []string{"TypeOK", "DepthBound", "NoDeath", "MemBound", "HostLoopCovered", "PromptStop", "BoundaryClean", "RefuseHuge", "SourceBound"}
 
 type c09Sched struct {
 	Sk      string   `json:"sk"`
 	Md      int      `json:"md"`
 	Bud     int      `json:"bud"`
+	Par     any      `json:"par"` // the skeleton's size parameter: "half" | "over" | "huge" (libgrow), print size (output), lines of the saved state (autoload)
 	K       int      `json:"k"`
 	KSat    bool     `json:"ksat"`
 	Pc      int      `json:"pc"`
@@ -673,6 +815,7 @@ type c09Class struct {
 	Sk    string
 	Md    int
 	Bud   int
+	Par   any    // the skeleton's size parameter (Guards.tla Params)
 	Kind  string // nocancel | precancel | tick | ticksat
 	K     int
 	Preds map[string]bool // predicted outcome classes (model names)
@@ -723,6 +866,7 @@ var c09Variants = map[string][]string{
 		"a=[1,2,3,4]*((1<<62)+1); len(a)", "a=[1,2,3,4,5,6,7,8]*((1<<61)+3); len(a)", "a=[1,2,3]*6148914691236517207; len(a)",
 		"a=[1,2,3,4,5]*3689348814741910325; len(a)", "a=[1,2,3,4]*((1<<62)+(1<<20)); len(a)", "a=[[1,2],[3]]*((1<<63)-1); len(a)"},
 	"range":       {"a=0:(1<<40); len(a)", "a=0:(1<<59); len(a)", "a=-(1<<40):(1<<40); len(a)", "a=-9223372036854775807:9223372036854775807; len(a)", "a=(0:(1<<62)); len(a)"},
+	"autoload":    {"for true {vtick()}", "i=0; for true {vtick(); i++}", "func w(){for true {vtick()}}; w()", "func f(n){vtick(); 1+f(n+1)}; f(0)"},
 	"sleep":       {"sleep(30)", "sleep(1e9)", "func z(){sleep(30)}; z()", "for true {sleep(30)}"},
 }
 
@@ -739,6 +883,12 @@ func c09EffDepth(md int) int64 {
 		return int64(eval.DefaultMaxDepth)
 	}
 	return int64(md)
+}
+
+// c09StackPerLevel: Go stack one level of depth costs at least, from the text of the recursive function: 4 KiB for a plain
+// call, as much again for every loop the recursive call sits in (measured: 9-12 kB per level with one loop).
+func c09StackPerLevel(src string) int64 {
+	return 4096 * int64(1+strings.Count(src, "for "))
 }
 
 // c09Attribute: is a failing case explained by a listed deviation of the code (narrow predicate over the CASE, not over the outcome)?
@@ -759,14 +909,27 @@ func c09Attribute(p c09Plan, kind string) string {
 	case (j.Skel == "nest" || j.Skel == "nestmid") && used["NestingUnguarded"] && j.GenN >= 100000:
 		return c09FindingOf["NestingUnguarded"]
 	case (j.Skel == "recurse" || j.Skel == "mutual" || j.Skel == "closures") && used["StackUnbudgeted"] &&
-		c09EffDepth(j.MaxDepth)*4096 > j.MemLimit && (kind == "late" || kind == "rss"):
+		c09EffDepth(j.MaxDepth)*c09StackPerLevel(j.Src) > j.MemLimit && (kind == "late" || kind == "rss"):
 		return c09FindingOf["StackUnbudgeted"]
 	}
 	return ""
 }
 
+// c09Sig: the signature of a failure that no listed finding explains
+func c09Sig(kind string, j c09Job) string {
+	sig := "c09-" + kind + "-" + j.Skel
+	switch {
+	case j.Fn != "": // the library function / program shape: each has its own guard
+		sig += "-" + j.Fn
+	case j.GenCtx != "":
+		sig += "-" + j.Gen
+	}
+	return sig
+}
+
 func c09Key(j c09Job) string {
-	return fmt.Sprintf("%s|%s|%d|%d|%d|%d|%d|%s", j.Src, j.Gen, j.GenN, j.MaxDepth, j.MemLimit, j.DeadlineMs, j.CancelTick, j.Via)
+	return fmt.Sprintf("%s|%s|%d|%d|%d|%d|%d|%s|%s|%t|%d|%s|%d|%t", j.Src, j.Gen, j.GenN, j.MaxDepth, j.MemLimit, j.DeadlineMs, j.CancelTick, j.Via,
+		j.GenCtx, j.AutoLoad, j.StateLines, j.StateKind, j.PreSleepMs, j.AutoSave)
 }
 
 func c09NonTrivial(o c09Obs) bool {
@@ -827,6 +990,9 @@ func checkC09(c *Ctx) {
 		{"StringConcatUnguarded", "MemBound", []string{"sconcat"}}, {"RepeatSizeOverflow", "HostLoopCovered", []string{"arepeatwrap"}},
 		{"NestingUnguarded", "DepthBound", []string{"nest", "nestmid"}}, {"StackUnbudgeted", "MemBound", []string{"recurse"}},
 		{"SleepIgnoresContext", "", []string{"sleep"}}, {"NoResetOnRecover", "BoundaryClean", []string{"recurse", "srepeat"}},
+		{"LibraryResultUnguarded", "MemBound", []string{"libgrow"}}, {"CapturedOutputUnbudgeted", "MemBound", []string{"output"}},
+		{"NestingUnguarded", "NoDeath", []string{"recnest"}}, {"RewriteRevisits", "SourceBound", []string{"rewrite"}},
+		{"DeadlineNetOfLoad", "", []string{"autoload"}},
 	}
 	if c.Thorough() {
 		devRuns = append(devRuns, devRun{"StringConcatUnguarded", "NoDeath", []string{"sconcat"}}, devRun{"RepeatSizeOverflow", "NoDeath", []string{"arepeatwrap"}},
@@ -884,10 +1050,10 @@ func checkC09(c *Ctx) {
 		case s.KSat:
 			kind = "ticksat"
 		}
-		key := fmt.Sprintf("%s/%d/%d/%s/%d", s.Sk, s.Md, s.Bud, kind, k)
+		key := fmt.Sprintf("%s/%d/%d/%v/%s/%d", s.Sk, s.Md, s.Bud, s.Par, kind, k)
 		cl := classes[key]
 		if cl == nil {
-			cl = &c09Class{Sk: s.Sk, Md: s.Md, Bud: s.Bud, Kind: kind, K: k, Preds: map[string]bool{}, Used: map[string]bool{}}
+			cl = &c09Class{Sk: s.Sk, Md: s.Md, Bud: s.Bud, Par: s.Par, Kind: kind, K: k, Preds: map[string]bool{}, Used: map[string]bool{}}
 			classes[key] = cl
 			order = append(order, key)
 		}
@@ -915,6 +1081,7 @@ func checkC09(c *Ctx) {
 
 	plans := c09Concretize(c, classes, order)
 	plans = append(plans, c09Pinned(c)...)
+	plans = append(plans, c09FamPinned(c)...)
 	c.Cov("excluded_features", []string{})
 
 	// ---- run
@@ -926,12 +1093,22 @@ func checkC09(c *Ctx) {
 		}
 		jobs[i] = plans[i].Job
 	}
-	outer := func(j c09Job) time.Duration { return 45 * time.Second }
+	outer := func(j c09Job) time.Duration {
+		if j.Skel == "rewrite" {
+			return 12 * time.Second // small programs with a deadline of at most 1 s
+		}
+		if j.Skel == "autoload" || j.Skel == "libgrow" {
+			return 20 * time.Second
+		}
+		return 45 * time.Second
+	}
 	t0 := time.Now()
 	obs := c09RunAll(c, jobs, c09Par, outer)
 	c.Note("%d children in %.1f s (%d at once)", len(jobs), time.Since(t0).Seconds(), c09Par)
 
 	stats := map[string]int{}
+	confirmed := map[string]int{} // failures confirmed by a run of their own, by signature
+	failing := map[string]int{}
 	disagree := 0
 	var maxOver, maxRSSRatio float64
 	type slow struct {
@@ -952,9 +1129,11 @@ func checkC09(c *Ctx) {
 		sig := ""
 		if kind != "" {
 			sig = c09Attribute(p, kind)
-			if sig == "" {
+			if sig == "" && confirmed[c09Sig(kind, p.Job)] >= 2 {
+				// the same failure (kind x family member) was confirmed twice by a run of its own already
+			} else if sig == "" {
 				// not explained by a listed finding: re-run once ALONE before it counts (loaded machine)
-				o2 := c09RunChild(filepath.Join(c.Scratch(), "c09", "rerun"), p.Job, 60*time.Second)
+				o2 := c09RunChild(filepath.Join(c.Scratch(), "c09", "rerun"), p.Job, outer(p.Job)+15*time.Second)
 				_ = os.RemoveAll(filepath.Join(c.Scratch(), "c09", "rerun"))
 				if o2.Fate == "infra" {
 					c.Infra(fmt.Errorf("child %s could not be re-run: %s", p.Job.ID, o2.Stderr))
@@ -963,6 +1142,9 @@ func checkC09(c *Ctx) {
 				o2.Rerun = true
 				stats["reruns"]++
 				k2, d2 := c09Verdict(o2, p.WantMaxDepth, p.WantRefuse)
+				if k2 != "" {
+					confirmed[c09Sig(k2, p.Job)]++
+				}
 				if k2 == "" {
 					c.Note("case %s (%s) failed as %q under load and held when re-run alone: %s", p.Job.ID, p.Job.Skel, kind, detail)
 				}
@@ -1037,12 +1219,16 @@ func checkC09(c *Ctx) {
 		}
 		stats["fail:"+kind]++
 		if sig == "" {
-			sig = "c09-" + kind + "-" + p.Job.Skel
+			sig = c09Sig(kind, p.Job)
 		}
+		failing[sig]++
 		c.Fail(sig, fmt.Sprintf("%s: %s [skeleton %s, MaxDepth %d, limit %d MiB, deadline %d ms, cancel tick %d]", kind, detail, p.Job.Skel, p.Job.MaxDepth, p.Job.MemLimit>>20, p.Job.DeadlineMs, p.Job.CancelTick),
 			map[string]any{"check": "child", "job": p.Job, "want_maxdepth": p.WantMaxDepth, "want_refuse": p.WantRefuse, "observed": o})
 	}
 	c.Cov("outcomes", stats)
+	if len(failing) > 0 {
+		c.Cov("failing_signatures", failing)
+	}
 	c.Cov("model_disagreement", disagree)
 	if len(disagreeSamples) > 0 {
 		c.Cov("model_disagreement_samples", disagreeSamples)
@@ -1136,7 +1322,7 @@ func c09Concretize(c *Ctx, classes map[string]*c09Class, order []string) []c09Pl
 	nestDone := map[string]bool{}
 	for _, key := range order {
 		cl := classes[key]
-		recursive := cl.Sk == "recurse" || cl.Sk == "mutual" || cl.Sk == "closures"
+		recursive := cl.Sk == "recurse" || cl.Sk == "mutual" || cl.Sk == "closures" || cl.Sk == "recnest"
 		huge := cl.Sk == "srepeat" || cl.Sk == "arepeat" || cl.Sk == "arepeatwrap" || cl.Sk == "range"
 		for rep := 0; rep < perClass; rep++ {
 			md := pick(depths[cl.Md])
@@ -1180,6 +1366,8 @@ func c09Concretize(c *Ctx, classes map[string]*c09Class, order []string) []c09Pl
 					}
 				}
 				j.GenN = n
+			case "libgrow", "output", "recnest", "rewrite", "autoload":
+				c09FamJob(rng, cl, &j, &p)
 			default:
 				vs := c09Variants[cl.Sk]
 				j.Src = vs[rng.Intn(len(vs))]
@@ -1213,6 +1401,9 @@ func c09Concretize(c *Ctx, classes map[string]*c09Class, order []string) []c09Pl
 			}
 			if huge {
 				p.WantRefuse = true
+			}
+			if cl.Sk == "recnest" && j.DeadlineMs < 20000 {
+				j.DeadlineMs = 20000
 			}
 			if j.CancelTick != 0 && j.Skel != "nest" {
 				// tick-exact cancellation needs no wall-clock deadline to end the run; keep one as a safety net only
@@ -1254,12 +1445,35 @@ func c09Concretize(c *Ctx, classes map[string]*c09Class, order []string) []c09Pl
 					if md == 0 || md >= j.GenN {
 						j.MaxDepth = 1000
 					}
-				} else {
-					vs := c09Variants[sk]
-					j.Src = vs[rng.Intn(len(vs))]
 				}
 				p := c09Plan{Job: j, Class: cl}
-				p.WantRefuse = sk == "srepeat" || sk == "arepeat" || sk == "arepeatwrap" || sk == "range"
+				switch sk {
+				case "nestmid":
+				case "recnest":
+					continue // the deadline must not be what ends these: see c09FamJob
+				case "libgrow", "output", "rewrite", "autoload":
+					// the sweep draws its own size class
+					x := *cl
+					switch sk {
+					case "libgrow":
+						x.Par = []string{"half", "over", "huge"}[rng.Intn(3)]
+					case "output":
+						x.Par = 1 + rng.Intn(2)
+					case "autoload":
+						x.Par = 0
+					}
+					c09FamJob(rng, &x, &p.Job, &p)
+					if sk == "autoload" && rng.Intn(3) > 0 {
+						p.Job.StateLines, p.Job.StateKind = 0, ""
+						c09SlowLoad(rng, &p.Job, d)
+					}
+				default:
+					vs := c09Variants[sk]
+					p.Job.Src = vs[rng.Intn(len(vs))]
+				}
+				if sk == "srepeat" || sk == "arepeat" || sk == "arepeatwrap" || sk == "range" {
+					p.WantRefuse = true
+				}
 				add(p)
 			}
 		}
